@@ -396,6 +396,9 @@ func replayOfPort(pc portCase, f portFail) map[string]any {
 }
 
 func portParts(c *harness.Check) {
+	if !want("ports") {
+		return
+	}
 	cases, desc := portCases(c)
 	four := c.Thorough()
 	total, complete := parallel(int64(len(cases)), 4, func() struct{} { return struct{}{} },
